@@ -54,6 +54,10 @@ theorem recv_idle_update_cond_eq :
 /-- `on_timeout` / `poll_idle_timer` as in `StreamRecv.onTimeout` / `onIdleExpired` -/
 theorem recv_timeout_shape_eq : recvTimeoutShape = true ∧ recvPollIdleShape = true := by decide
 
+/-- a stream transport (TCP) that closes while the receiver still expects data — before OR after the final size is
+    known — is reported as `TruncatedTransport` (the reader must not hang or see a clean end) -/
+theorem recv_transport_close_shape_eq : recvTransportCloseShape = true := by decide
+
 /-- the duplicate filter is consulted first (`StreamRecv.onCleartext` starts with `dedupe`) -/
 theorem recv_dedupe_eq : recvDedupe = true ∧ recvDedupeBeforeIdle = true := by decide
 
